@@ -134,19 +134,27 @@ class LTLExplainer(LtlAstVisitor):
         intervals = args[0]
         flag = args[1]
         op_signal = self.spec.results[element.children[0]]
-        op_intervals = explain_rise(op_signal, intervals)
+        if flag:
+            op_intervals, prev_intervals = explain_sat_rise(op_signal, intervals)
+        else:
+            op_intervals, prev_intervals = explain_unsat_rise(op_signal, intervals)
         self.explanations[element.name] = intervals
 
         self.visit(element.children[0], [op_intervals, flag])
+        self.visit(element.children[0], [prev_intervals, not flag])
 
     def visitFall(self, element, args):
         intervals = args[0]
         flag = args[1]
         op_signal = self.spec.results[element.children[0]]
-        op_intervals = explain_fall(op_signal, intervals)
+        if flag:
+            op_intervals, prev_intervals = explain_sat_fall(op_signal, intervals)
+        else:
+            op_intervals, prev_intervals = explain_unsat_fall(op_signal, intervals)
         self.explanations[element.name] = intervals
 
-        self.visit(element.children[0], [op_intervals, flag])
+        self.visit(element.children[0], [op_intervals, not flag])
+        self.visit(element.children[0], [prev_intervals, flag])
 
     def visitNot(self, element, args):
         intervals = args[0]
